@@ -13,6 +13,29 @@ OPS = {"append": 1, "insert": 2, "trim": 3, "chop": 4, "realloc": 5, "reserve": 
 ENV = ["env_alloc.c", "env_misc.c", "env_sync.c"]
 
 
+API = ("none append insert trim chop realloc clear append_u16 append_u32 append_u64 insert_u16 insert_u32 insert_u64 "
+       "trim_u16 trim_u32 trim_u64 chop_u16 chop_u32 chop_u64 h_append h_insert h_trim h_chop h_append_u16 h_append_u32 "
+       "h_append_u64 h_insert_u16 h_insert_u32 h_insert_u64 h_trim_u16 h_trim_u32 h_trim_u64 h_chop_u16 h_chop_u32 "
+       "h_chop_u64 h_clear reserve").split()
+APIC = {n: i for i, n in enumerate(API)}
+BODY_OPS = ["append", "insert", "trim", "chop", "realloc"]
+
+
+def seq(ops, sz0, hdr0=None, timeout=300, tier="quick", sizes=None, nmax=8):
+    d = {"SZ0": sz0, "OP1": APIC[ops[0]], "OP2": APIC[ops[1]] if len(ops) > 1 else 0,
+         "OP3": APIC[ops[2]] if len(ops) > 2 else 0, "NMAX": nmax}
+    if hdr0 is not None:
+        d["HDR0"] = hdr0
+    name = "api-%s-sz%d%s" % ("+".join(ops), sz0, "" if hdr0 is None else "-h%d" % hdr0)
+    if sizes:
+        for i, n in enumerate(sizes):
+            if n is not None:
+                d["N%d" % (i + 1)] = n
+        name += "-n" + ".".join("s" if n is None else str(n) for n in sizes)
+    return Query(name, "c17/api_seq.c", tus=["core/message.c"], env=ENV, defs=d, unwind=max(72, sz0 + 3 * nmax + 16),
+                 timeout=timeout, tier=tier, params={"ops": ops, "initial_size": sz0, "initial_header": hdr0})
+
+
 def queries(tier):
     qs = []
     caps = [8, 24, 40] if tier == "quick" else [1, 8, 24, 33, 40, 64]
@@ -20,9 +43,40 @@ def queries(tier):
         for cap in caps:
             if op == "trim_u32" and cap < 4:
                 continue
+            if tier == "quick" and op in ("pullup",) and cap > 24:
+                continue
             qs.append(Query("chunk-%s-cap%d" % (op, cap), "c17/chunk_step.c", env=ENV,
-                            defs={"OP": code, "CAP": cap}, unwind=max(cap + 24, 70), timeout=300,
+                            defs={"OP": code, "CAP": cap}, unwind=max(cap + 24, 70), timeout=600 if tier != "quick" else 300,
                             params={"op": op, "cap": cap}))
+    for sz in ((0, 1, 31, 32, 33, 1023, 1024, 1025, 2048) if tier == "quick" else (0, 1, 31, 32, 33, 63, 64, 1023, 1024, 1025, 2047, 2048, 4096)):
+        qs.append(Query("alloc-sz%d" % sz, "c17/chunk_step.c", env=ENV, defs={"OP": 11, "CAP": sz}, unwind=8,
+                        params={"op": "nni_msg_alloc", "size": sz}))
+    # public API, single operations: every wrapper incl. all u16/u32/u64 values
+    for op in API[1:]:
+        if op.startswith("h_"):
+            for h in (0, 4, 60):
+                qs.append(seq([op], 0, hdr0=h))
+        else:
+            for sz in (0, 8):
+                qs.append(seq([op], sz))
+    # curated sequences (grow while data sits at a non-zero offset, trim-to-empty then grow, ...)
+    # sizes concrete per query (R1/R3), all bytes symbolic; the last size stays symbolic where cheap
+    cur = [(["insert", "insert"], 8, (33, 40)), (["insert", "insert"], 8, (32, 1)), (["trim", "insert"], 8, (8, 40)),
+           (["trim", "insert"], 8, (3, 36)), (["trim", "append"], 8, (8, 40)), (["chop", "insert"], 8, (8, 33)),
+           (["realloc", "insert"], 8, (40, 33)), (["insert", "trim", "insert"], 8, (32, 20, 30)),
+           (["append", "insert", "trim"], 8, (40, 36, 50)), (["trim", "append", "insert"], 8, (8, 48, 40)),
+           (["chop_u32", "append_u64", "insert_u16"], 8, None), (["clear", "insert", "append"], 8, (None, 36, 40)),
+           (["reserve", "insert", "append"], 8, (50, 36, 40)), (["insert", "insert", "insert"], 0, (30, 30, 30))]
+    for ops, sz, sizes in cur:
+        qs.append(seq(ops, sz, sizes=sizes, nmax=50 if sizes else 8))
+    if tier != "quick":
+        for a in BODY_OPS:
+            for b in BODY_OPS:
+                for n1, n2 in ((5, 36), (36, 5), (8, 8), (0, 41)):
+                    qs.append(seq([a, b], 8, tier="thorough", timeout=600, sizes=(n1, n2), nmax=44))
+        # no-headroom path: power-of-two size >= 1024 (concrete), small edits
+        for ops, sizes in ((["insert"], (8,)), (["append"], (8,)), (["trim", "insert"], (1024, 8)), (["trim", "insert"], (10, 16))):
+            qs.append(seq(ops, 1024, tier="thorough", timeout=900, sizes=sizes, nmax=1024))
     return qs
 
 MANIFEST = {
